@@ -104,7 +104,7 @@ def git_ignored(root, rels):
     if not rels:
         return set()
     r = subprocess.run(["git", "check-ignore", "-z", "--stdin"], cwd=root,
-                       input="\0".join(rels).encode() + b"\0", stdout=subprocess.PIPE, stderr=subprocess.PIPE)
+                       input="\0".join(rels).encode("utf-8", "surrogateescape") + b"\0", stdout=subprocess.PIPE, stderr=subprocess.PIPE)
     return {x for x in r.stdout.decode("utf-8", "surrogateescape").split("\0") if x}
 
 
